@@ -117,6 +117,11 @@ def ghost_specs():
     S["DLY"] = GhostSpec("DLY", dly)
     S["MAXD"] = GhostSpec("MAXD", lambda e, st, a: VInt(MAXD))
     S["DWIT"] = GhostSpec("DWIT", lambda e, st, a: VInt(DWIT))
+    # uninterpreted laws used by the folded-cube contracts (C17): dispersion delay in bins, and rounding
+    DDF = z3.Function("DDF", REAL, REAL, REAL, INT, INT)
+    from .models import RNDF
+    S["DDF"] = GhostSpec("DDF", lambda e, st, a: VInt(DDF(e.to_real(a[0]), e.to_real(a[1]), e.to_real(a[2]), smt.som(e.to_int(a[3])))))
+    S["rndf"] = GhostSpec("rndf", lambda e, st, a: VInt(RNDF(e.to_real(a[0]))))
     S["dec16"] = GhostSpec("dec16", lambda e, st, a: VReal(DEC16(a[0].t, a[1].t)))
     S["dec32"] = GhostSpec("dec32", lambda e, st, a: VReal(DEC32(a[0].t, a[1].t, a[2].t, a[3].t)))
     return S
